@@ -1,8 +1,13 @@
 #!/usr/bin/env python3
 """Prints the detection matrix (markdown) for DESIGN.md section 9 from seeded/*/meta.json and a selftest log.
-   gen_matrix.py [selftest log]"""
-import ast, json, os, sys
+   gen_matrix.py [selftest log] [--update-design]   (--update-design rewrites the text between the MATRIX markers of DESIGN.md)"""
+import ast, io, json, os, sys
 V = os.path.dirname(os.path.dirname(os.path.dirname(os.path.abspath(__file__))))
+UPDATE = '--update-design' in sys.argv
+if UPDATE:
+    sys.argv.remove('--update-design')
+    _real = sys.stdout
+    sys.stdout = io.StringIO()
 print('#### Independently written breaking changes (`seeded/`)\n')
 print('| id | breaks | needs to manifest | checks that catch it (quick command) | first verdict / strengthening |')
 print('|---|---|---|---|---|')
@@ -26,3 +31,13 @@ if len(sys.argv) > 1:
             if t[1] == 'ctest':
                 continue
             print('| %s | %s | %s | %s | %s |' % (t[0].replace('.patch', ''), spec.get(t[0], {}).get('breaks', ''), t[1], t[2], t[3][:170].replace('|', '/')))
+
+if UPDATE:
+    txt = sys.stdout.getvalue()
+    sys.stdout = _real
+    p = os.path.join(V, 'DESIGN.md')
+    d = open(p).read()
+    a = d.index('<!-- MATRIX-BEGIN -->') + len('<!-- MATRIX-BEGIN -->')
+    b = d.index('<!-- MATRIX-END -->')
+    open(p, 'w').write(d[:a] + '\n\n' + txt + '\n' + d[b:])
+    print('DESIGN.md section 9 matrix updated (%d lines)' % txt.count('\n'))
